@@ -34,7 +34,7 @@ theorem Ctx.both (h : Ctx G D) {a b : Nat} (hab : HasUn G a b) :
   have hBb : Bk G a b := UnConn.single hab
   obtain ⟨haA, hbA⟩ := hA a b hBa hBb hab.skel
   obtain ⟨E, hE, hba⟩ := (h.ext_rel A.length A (Nat.le_refl _) hv).2 a haA b hbA hab
-  exact ⟨liftDag G D a E, h.lift_ext hE hA, (h.mem_lift hE).mpr (Or.inl ⟨hBb, hBa, hba⟩)⟩
+  exact ⟨liftDag G D a E, h.lift_ext hE hA, (h.mem_lift (hE.bor hA)).mpr (Or.inl ⟨hBb, hBa, hba⟩)⟩
 
 /-- **Meek's completeness theorem** (Meek 1995, Thm 4; with background knowledge), in the form of
     the hypothesis `C08.MeekT3`. -/
